@@ -1572,17 +1572,25 @@ class SpaceManager(SharedSpaceOperations):
             basevalue = value._impl.idstr
             for subspace in self._get_subs(space):
                 if name in subspace.own_refs:
-                    break
-                else:
-                    subvalue = self._graph.get_relative(
-                        subspace.idstr, space.idstr,
-                        basevalue)
-                    if (not subvalue
-                            or self.model.get_impl_from_name(subvalue) is None):
-                        raise ValueError(
-                            "Cannot create relative reference for '%s' in '%s'"
-                            % (basevalue, subspace.idstr)
-                        )
+                    subref = subspace.own_refs[name]
+                    if subref.is_defined():
+                        # Overridden in this sub space only
+                        continue
+                    definer = subref.defined_bases[0].parent
+                    if definer is not space:
+                        bases = subspace.bases
+                        if bases.index(definer) < bases.index(space):
+                            # Derived from a nearer definition
+                            continue
+                subvalue = self._graph.get_relative(
+                    subspace.idstr, space.idstr,
+                    basevalue)
+                if (not subvalue
+                        or self.model.get_impl_from_name(subvalue) is None):
+                    raise ValueError(
+                        "Cannot create relative reference for '%s' in '%s'"
+                        % (basevalue, subspace.idstr)
+                    )
 
     def new_ref(self, space, name, value, refmode):
 
